@@ -197,6 +197,10 @@ def Editor.insert (ed : Editor α) (pos : Int) (t : List α) : R (Editor α) := 
 
 /-- Editor.Delete -/
 def Editor.delete (ed : Editor α) (start end_ : Int) : R (Editor α) :=
+  let count : Int := ed.charCount cx
+  let start := if start == Gen.endSentinel then count else start
+  let end_ := if end_ == Gen.endSentinel then count else end_
+  let (start, end_) := rangeToIndexes count start end_
   if start ≥ end_ then pure ed
   else do
     let before := (← ed.charsTo cx start).text
@@ -205,6 +209,9 @@ def Editor.delete (ed : Editor α) (start end_ : Int) : R (Editor α) :=
 
 /-- Editor.Overtype -/
 def Editor.overtype (ed : Editor α) (pos : Int) (t : List α) : R (Editor α) := do
+  let count : Int := ed.charCount cx
+  let pos := if pos == Gen.endSentinel then count else pos
+  let pos := (rangeToIndexes count pos pos).1
   let before := (← ed.charsTo cx pos).text
   let after := (← ed.charsFrom cx (wrap64 (pos + gLen cx t))).text
   pure (ed.withText (before ++ t ++ after))
